@@ -373,7 +373,8 @@ def run(ctx):
         tree, tw = rg['make']()
         text = G.yaml_text(tree, False)
         r2, r3 = run_doc(text), run_doc(tw)
-        same = r2[0] == 'ok' and r3[0] == 'ok' and not W.first_diff(r2[1], r3[1])
+        same = (r2[0] == 'ok' and r3[0] == 'ok' and not W.first_diff(r2[1], r3[1])) or \
+               (r2[0] == 'cfgerr' and r3[0] == 'cfgerr' and r2[1] == r3[1])      # the same configuration error
         regressions[rg['name']] = bool(same)
         if re.sub(r'\s+', ' ', 'Definition %s : yaml := %s.' % (rg['coq'], T.to_coq(tree))) not in proofs_src:
             ctx.corr_broken.append('regression document %s of V2Proofs.v is not the document replayed by the harness' % rg['coq'])
